@@ -413,17 +413,15 @@ func c17Judge(c *core.Ctx, f string, a, b c17Operand, binary bool, res core.Res,
 		return
 	}
 	if want, repr := numText(exact); repr {
-		if exact.Sign() == 0 && res.Out == "-0" {
-			return // negative zero equals zero; how it prints is not stated
-		}
 		if res.Out == want {
 			return
 		}
-		// same float64 value, spelled differently: accepted in exponent notation (no fractional part is shown
-		// for a whole number); a plain decimal with a fractional part for a whole number is what the statement forbids
+		// a whole-number result prints without a fractional part: as its digits (1.234567e+06 shows one, and -0 is
+		// not what 0 times -1 is). A result that is not whole may be spelled in exponent notation, which the
+		// statement does not rule out, as long as it is the same float64 value.
 		wf, _ := exact.Float64()
 		gf, err := strconv.ParseFloat(res.Out, 64)
-		if err == nil && gf == wf && strings.ContainsAny(res.Out, "eE") {
+		if !exact.IsInt() && err == nil && gf == wf && strings.ContainsAny(res.Out, "eE") {
 			c.Obs("exact_value_in_exponent_notation", 1)
 			return
 		}
@@ -520,10 +518,7 @@ func c17Chains(c *core.Ctx, e *liquid.Engine) {
 		c.Eval(1)
 		c.Obs("chain_cases", 1)
 		c.Distinct("chain", src)
-		if cur.Sign() == 0 && res.OK() && res.Out == "-0" {
-			continue
-		}
-		if gf, err := strconv.ParseFloat(res.Out, 64); res.OK() && err == nil && strings.ContainsAny(res.Out, "eE") {
+		if gf, err := strconv.ParseFloat(res.Out, 64); res.OK() && err == nil && !cur.IsInt() && strings.ContainsAny(res.Out, "eE") {
 			if wf, _ := cur.Float64(); wf == gf {
 				continue
 			}
